@@ -49,8 +49,9 @@ def tape_file(name, ftype, dtype, load, exe, data, gap_len=128, leader_len=128):
             [0] * gap_len + [0x55] * leader_len + blocks(data) + EOF_BLOCK)
 
 
-def _read_block(buf, p):
-    """ 00* 55+ 3C type len payload cksum 55  -> (type, payload, next p) or None at clean end of tape"""
+def _read_block(buf, p, leader=False):
+    """ 00* 55+ 3C type len payload cksum 55  -> (type, payload, next p) or None at clean end of tape.
+    The last 55 before 3C is the block's own frame byte; leader=True demands at least one leader byte 55 in front of it."""
     n = len(buf)
     while p < n and buf[p] == 0x00:
         p += 1
@@ -65,6 +66,8 @@ def _read_block(buf, p):
         return None                      # trailing leader only
     if buf[q] != 0x3C:
         raise TapeFormatError("no sync byte after leader at %d" % q)
+    if leader and q - p < 2:
+        raise TapeFormatError("no leader in front of the block at %d" % p)
     if q + 3 > n:
         raise TapeFormatError("truncated block header")
     btype, ln = buf[q + 1], buf[q + 2]
@@ -83,7 +86,7 @@ def parse_stream(buf):
     files = []
     p = 0
     while True:
-        r = _read_block(buf, p)
+        r = _read_block(buf, p, leader=True)
         if r is None:
             return files
         btype, payload, p = r
@@ -91,8 +94,10 @@ def parse_stream(buf):
             raise TapeFormatError("expected a name-file block of 15 payload bytes")
         f = dict(name="".join(chr(c) for c in payload[:8]), ftype=payload[8], dtype=payload[9], gap=payload[10],
                  load=payload[11] * 256 + payload[12], exec=payload[13] * 256 + payload[14], data=[], blocks=[])
+        first = True
         while True:
-            r = _read_block(buf, p)
+            r = _read_block(buf, p, leader=first)
+            first = False
             if r is None:
                 raise TapeFormatError("file without end-of-file block")
             btype, payload, p = r
@@ -114,6 +119,13 @@ def selftest():
     assert len(fs) == 2 and fs[0]["name"] == "HELLO   " and fs[0]["load"] == 0x0E00 and fs[0]["blocks"] == [255, 255, 5]
     assert fs[1]["data"] == list(range(256)) * 2 + [0x55, 0x3C, 0xFF]
     assert parse_stream(tape_file("", 0, 255, 0, 0, [])) [0]["data"] == []
+    for cut in (range(128, 256), range(256 + 21 + 128, 256 + 21 + 256)):
+        nolead = [b for k, b in enumerate(t) if k not in cut or b != 0x55]
+        try:
+            parse_stream(t + nolead)
+            assert False
+        except TapeFormatError:
+            pass
     bad = list(t)
     bad[300] ^= 1
     try:
